@@ -87,6 +87,28 @@ def _f_bag(obj, base):
     return base
 
 
+def rec_ser_guid(node, data):
+    """stores the custom id under another key ('guid') instead of 'data_id' ..."""
+    data["name"] = node.data.name
+    data["size"] = node.data.size
+    if "data_id" in data:
+        data["guid"] = data.pop("data_id")
+
+
+def rec_de_guid(parent, item):
+    """... and hands it back the documented way: the mapper *sets* item['data_id'] (from_dict reads it afterwards)"""
+    if "guid" in item:
+        item["data_id"] = item["guid"]
+    return Rec(item["name"], item["size"])
+
+
+def _f_rec_guid(obj, base):
+    base.update({"name": obj.name, "size": obj.size})
+    if "data_id" in base:
+        base["guid"] = base.pop("data_id")
+    return base
+
+
 def _guid_id(tree, data):
     return data.guid if isinstance(data, Ent) else hash(data)
 
@@ -124,6 +146,7 @@ DFAMS = {
     "rec_inplace": DFam("rec_inplace", new_tree=lambda: Tree("T"), mk=c05.mk_rec, ser=rec_ser_inplace, de=rec_de_fields, fields=_f_rec_inplace),
     "rec_new": DFam("rec_new", new_tree=lambda: Tree("T"), mk=c05.mk_rec, ser=rec_ser_new, de=rec_de_list, fields=_f_rec_new),
     "ent": DFam("ent", new_tree=lambda: Tree("T", calc_data_id=_guid_id), mk=c05.mk_ent, ser=ent_ser, de=ent_de, fields=_f_ent, guid=True),
+    "rec_guid": DFam("rec_guid", new_tree=lambda: Tree("T"), mk=c05.mk_rec, ser=rec_ser_guid, de=rec_de_guid, fields=_f_rec_guid),
     "bag": DFam("bag", new_tree=lambda: Tree("T"), mk=c05._memo(lambda lab: Bag(lab)), ser=bag_ser, de=bag_de, fields=_f_bag),
     # objects without mapper: only the structure ("data" is the string form) is promised
     "int": DFam("int", new_tree=lambda: Tree("T"), mk=c05._memo(lambda lab: 1000 + sum(ord(c) for c in lab)), ser=None, de=None, fields=_f_plain, roundtrip=False),
@@ -357,6 +380,7 @@ def case_list(tier: str):
     objs = list(gen.plain_specs(N)) + list(c05.idclone_specs(N)) + list(gen.explicit_id_specs(N - 1))
     for f in ("rec_inplace", "rec_new"):
         out += [(f, s) for s in objs]
+    out += [("rec_guid", s) for s in c05.idclone_specs(N - 1, ids=("id7", 0))] + [("rec_guid", s) for s in gen.explicit_id_specs(N - 1)]
     out += [("bag", s) for s in gen.plain_specs(N - 1)] + [("bag", s) for s in c05.idclone_specs(N - 1, ids=("id7", 0))]
     out += [("ent", s) for s in gen.plain_specs(N)]
     out += [("ent", s) for s in c05.idclone_specs(N - 1)]
